@@ -25,9 +25,11 @@
    * WithBot: Some(bottom-of-inner) IS the new bottom (the code's == and partial_cmp say so).
    * WithTop: None is a NEW greatest element strictly above every Some(x) (the code's ==,
      partial_cmp and merge say so).  Hence "is_top exactly for a greatest element" means
-     IsTop(withtop) <=> None.  `IsTopCode` below transcribes what the code computes instead
-     (Some(x) with x top of the inner lattice also answers true); the difference is the
-     finding withtop/is_top/some-inner-top.
+     IsTop(withtop) <=> None, exactly the adjoined top.  `IsTopCode` transcribes what the code
+     computes on representations; since the fix "WithTop::is_top holds only for the adjoined
+     top element" it coincides with IsTop (zero drift).  `IsTopPreFix` keeps the pre-fix
+     behaviour (Some(x) with x top of the inner lattice also answered true) ONLY to give a
+     regression its specific fingerprint withtop/is_top/some-inner-top.
    * VecUnion: the length is part of the value ("like MapUnion<usize, Lat> but without missing
      entries", README): [] < [bot]; is_bot <=> empty.  (eq, partial_cmp, is_bot and the merge
      flag of the code all agree with this reading.)
@@ -228,8 +230,8 @@ IsTop(t, a) ==
       [] t.k = "conflict" -> a = {}
       [] t.k \in {"point", "unit"} -> TRUE
 
-(* what the code computes for is_top, on representations (implementation-shaped): identical
-   to IsTop except WithTop, where Some(x) with x top also answers true *)
+(* what the code computes for is_top, on representations (implementation-shaped); after the
+   WithTop fix this is IsTop composed with Abs *)
 RECURSIVE IsTopCode(_, _)
 IsTopCode(t, r) ==
     CASE t.k \in {"set", "map", "vec", "uf"} -> FALSE
@@ -238,9 +240,24 @@ IsTopCode(t, r) ==
       [] t.k = "maxbool" -> r = 1
       [] t.k = "minbool" -> r = 0
       [] t.k = "withbot" -> Len(r) = 1 /\ IsTopCode(t.v, r[1])
-      [] t.k = "withtop" -> Len(r) = 0 \/ IsTopCode(t.v, r[1])
+      [] t.k = "withtop" -> Len(r) = 0
       [] t.k \in {"pair", "dompair"} -> IsTopCode(t.a, r[1]) /\ IsTopCode(t.b, r[2])
       [] t.k = "struct3" -> IsTopCode(t.a, r[1]) /\ IsTopCode(t.b, r[2]) /\ IsTopCode(t.c, r[3])
+      [] t.k = "conflict" -> Len(r) = 0
+      [] t.k \in {"point", "unit"} -> TRUE
+
+(* the PRE-FIX WithTop::is_top (is_none_or(IsTop::is_top)): regression classifier only *)
+RECURSIVE IsTopPreFix(_, _)
+IsTopPreFix(t, r) ==
+    CASE t.k \in {"set", "map", "vec", "uf"} -> FALSE
+      [] t.k = "max" -> r = U8MAX
+      [] t.k = "min" -> r = U8MIN
+      [] t.k = "maxbool" -> r = 1
+      [] t.k = "minbool" -> r = 0
+      [] t.k = "withbot" -> Len(r) = 1 /\ IsTopPreFix(t.v, r[1])
+      [] t.k = "withtop" -> Len(r) = 0 \/ IsTopPreFix(t.v, r[1])
+      [] t.k \in {"pair", "dompair"} -> IsTopPreFix(t.a, r[1]) /\ IsTopPreFix(t.b, r[2])
+      [] t.k = "struct3" -> IsTopPreFix(t.a, r[1]) /\ IsTopPreFix(t.b, r[2]) /\ IsTopPreFix(t.c, r[3])
       [] t.k = "conflict" -> Len(r) = 0
       [] t.k \in {"point", "unit"} -> TRUE
 
